@@ -100,6 +100,9 @@ func hDigestByte(st int, k int) byte                    { return 0 }
 // sends(): ghost counter of datagrams handed to transport.Send so far.
 func sends() int { return 0 }
 
+// lastSendFailed(): the most recent transport.Send returned an error.
+func lastSendFailed() bool { return false }
+
 // metric(m): ghost value of a prometheus counter / gauge.
 func metric(m any) int { return 0 }
 
@@ -110,6 +113,12 @@ func metricsOnly(m ...any) bool          { return true }
 // hasKey(m, k): map m has an entry for k. cur(x): the current value of a reassigned parameter / local.
 func hasKey[K comparable, V any](m map[K]V, k K) bool { _, ok := m[k]; return ok }
 func cur[T any](x T) T                                 { return x }
+
+// Deadline discipline (C13): see DESIGN.md s9 C13.
+func ctxChildOf(c, parent any) bool                      { return true }
+func backoffBoundTo(b, ctx any) bool                     { return true }
+func ctxHasDeadline(ctx any) bool                        { return true }
+func socketDeadlineIs(conn any, kind string, ctx any) bool { return true }
 
 // bufRoom(b, front, back): the buffer can take front more bytes in front and back more behind without reallocating.
 func bufRoom(b any, front, back int) bool { return b != nil }
